@@ -175,6 +175,10 @@ func decideFunc(c *Ctx, rule string) *ssa.Function {
 			if !ok || fn.Signature.Results().Len() != 2 {
 				continue
 			}
+			// ... of the loaded root set (helpers with the same result shape take no root set)
+			if fn.Signature.Params().Len() != 1 || !namedType(fn.Signature.Params().At(0).Type(), typesPkg, "RootCertificates") || fn.Blocks == nil {
+				continue
+			}
 			if strings.HasSuffix(fn.Signature.Results().At(0).Type().String(), "nodeenrollment.KnownId") && namedType(fn.Signature.Results().At(1).Type(), typesPkg, "RootCertificate") {
 				c.R.Fn(core.FuncName(fn))
 				return fn
